@@ -128,7 +128,7 @@ func verifH_C10_params() {
 	verifReach("end")
 }
 
-//verif:harness id=C10 tier=quick,thorough witness=end bounds="response headers that pass the real Header.Validate: defined by schema (integer/array/object) or by content (application/json, schema integer), required symbolic x header absent / any ASCII text of 0-3 bytes x status declared; ValidateResponse; assertion = no panic"
+//verif:harness id=C10 tier=quick,thorough witness=end bounds="response headers that pass the real Header.Validate: defined by schema (integer/array/object) or by content (application/json, schema integer), required symbolic x header absent / any ASCII text of 0-3 bytes (content-defined: eight concrete texts, on one or two lines) x status declared; ValidateResponse; assertion = no panic"
 func verifH_C10_response_header() {
 	d := "d"
 	h := &openapi3.Header{}
@@ -148,7 +148,15 @@ func verifH_C10_response_header() {
 	op := &openapi3.Operation{Responses: resps}
 	hdr := http.Header{}
 	if verifChoose("hasH", 2) == 1 {
-		hdr["X-H"] = []string{verifAnyText("raw", 3)}
+		if byContent {
+			// read as JSON text (concrete texts: byte-level JSON parsing of symbolic text is outside the model)
+			hdr["X-H"] = []string{[]string{"5", "x", "", "{", "[1]", "null", "5 5", "\"s\""}[verifChoose("text", 8)]}
+			if verifChoose("secondLine", 2) == 1 {
+				hdr["X-H"] = append(hdr["X-H"], "6")
+			}
+		} else {
+			hdr["X-H"] = []string{verifAnyText("raw", 3)}
+		}
 	}
 	in := verifRespInput(op, "GET", 200, hdr, []byte("x"), &Options{MultiError: verifNondetBool("multi")})
 	_ = ValidateResponse(context.Background(), in)
